@@ -170,10 +170,19 @@ def oracle_replace(ctx, rng):
         for k in rng.sample(["count", "interval", "dtstart", "freq", "byweekday", "wkst"], rng.randint(1, 3)):
             kw[k] = {"count": rng.randint(0, 9), "interval": rng.randint(1, 4), "dtstart": rrlib.to_dt(rng.choice([0, 86400, 7200])),
                      "freq": rng.choice([R.DAILY, R.HOURLY, R.WEEKLY]), "byweekday": (rng.randint(0, 6),), "wkst": rng.randint(0, 6)}[k]
+        if "byweekday" in kw and kw.get("freq", p["freq"]) not in (R.DAILY, R.HOURLY, R.WEEKLY):
+            del kw["byweekday"]                     # keep the generated rules cheap to iterate
+        if "freq" in kw and "byweekday" in p and kw["freq"] not in (R.DAILY, R.HOURLY, R.WEEKLY):
+            del kw["freq"]
+        if not kw:
+            kw["count"] = rng.randint(0, 9)
         cache = rng.random() < 0.5
         r = rrlib.make_rule(p, cache)
         if rng.random() < 0.5:
-            list(r)
+            try:
+                list(r)
+            except Exception:
+                pass
         try:
             got = ints(list(r.replace(**kw)))
         except Exception as ex:
